@@ -273,6 +273,7 @@ func checkC04(c *Ctx) {
 	r.Rule("R04.3", "value tokens: the only literal value constants written in JSON mode are JSON literals (null/true/false); floating-point text (which can be NaN/Inf) is always written between quotes in JSON mode, on every call chain from the value switch down to strconv.AppendFloat")
 	r.Rule("R04.4", "object bracketing: the member-list emitter is always called between an opening and a closing brace emitted by the same function in JSON mode (top level and nested groups), and a member separator is not written right after an opening brace")
 	r.Rule("R04.5", "framing: the only constant containing a line break that JSON mode can emit is the one End(true) writes")
+	r.Rule("R04.8", "value fidelity (necessary for 'decodes to what was logged'): in JSON mode every floating-point value is rendered by strconv with precision -1 and the bit size of its own static type, every integer in base 10, and every time VALUE with a constant layout that has nanosecond digits and a zone; the parameters are resolved to constants over all call chains")
 	r.Rule("R04.6", "fixed members: time, logger, level, msg, attributes, caller are produced in this order under the named key constants")
 	r.Rule("R04.7", "no pooled encoder field is read stale in JSON mode (engine E10): material formatted for a previous record cannot surface inside the object")
 	r.Assume("user-supplied marshallers and value stringers emit valid JSON (outside the property's domain)")
@@ -291,6 +292,7 @@ func checkC04(c *Ctx) {
 		mr := emissionCommon(c, p, m, jsonMode, "R04.2")
 		c04Escaper(c, p, m, mr)
 		c04Tokens(c, p, m, mr)
+		valueFidelity(c, p, m, mr, "R04.8")
 		c04Brackets(c, p, m, mr)
 		newlineRule(c, p, mr, "R04.5", map[string]string{"PrintCtx.End": "the record terminator of End(true)", "PrintCtx.EndArray": "EndArray(newline) for user marshallers", "Entry.printImpl": "blank-line shortcut"})
 		fieldOrder(c, p, m, jsonMode, "R04.6", []string{"Begin", "printTimestamp", "printLoggerName", "printSeverity", "printMsg", "serializeAttrs", "printPC", "printRestLinesOfMsg", "End", "Bytes", "printOut"}, map[string]bool{"printPC": true, "printRestLinesOfMsg": true})
